@@ -30,6 +30,7 @@
 #include <util/translation.h>
 
 #include <fstream>
+#include <functional>
 
 namespace {
 using valtype = std::vector<unsigned char>;
@@ -503,6 +504,124 @@ int main(int argc, char** argv)
         }
     }
 
+    // ---------------------------------------------------------------- multi-input transactions through SignTransaction
+    // 2..3 (thorough: ..4) inputs of different script types and amounts, every ordered selection of templates x every assignment of
+    // the outpoints to the inputs (all permutations: input order != outpoint order) x key availability; every input is verified
+    // afterwards with PrecomputedTransactionData rebuilt in input order.
+    uint64_t n_multi = 0, n_multi_complete = 0, n_multi_inputs_verified = 0;
+    {
+        struct MT { std::string desc; std::function<bool(bool, bool, bool)> sat; };   // satisfiable given (A, B, C) availability
+        const auto& H = K.hex;
+        std::vector<MT> mts{
+            {"pkh(" + H[0] + ")", [](bool a, bool, bool) { return a; }},
+            {"wpkh(" + H[0] + ")", [](bool a, bool, bool) { return a; }},
+            {"sh(wpkh(" + H[1] + "))", [](bool, bool b, bool) { return b; }},
+            {"wsh(multi(1," + H[0] + "," + H[1] + "))", [](bool a, bool b, bool) { return a || b; }},
+            {"tr(" + H[0] + ")", [](bool a, bool, bool) { return a; }},
+            {"tr(" + H[5] + ",pk(" + H[1] + "))", [](bool, bool b, bool) { return b; }},
+        };
+        if (big) {
+            mts.push_back({"tr(" + H[5] + ",and_v(v:pk(" + H[0] + "),pk(" + H[2] + ")))", [](bool a, bool, bool c) { return a && c; }});
+            mts.push_back({"tr(" + H[2] + ",{pk(" + H[0] + "),pk(" + H[1] + ")})", [](bool a, bool b, bool c) { return a || b || c; }});
+            mts.push_back({"wsh(or_d(pk(" + H[2] + "),pk(" + H[1] + ")))", [](bool, bool b, bool c) { return b || c; }});
+            mts.push_back({"sh(multi(2," + H[0] + "," + H[1] + "))", [](bool a, bool b, bool) { return a && b; }});
+        }
+        std::vector<Parsed> parsed;
+        for (const auto& t : mts) {
+            auto p = parse_desc(t.desc);
+            if (!p) { printf("HARNESS-ERROR property=C46 template does not parse: %s\n", t.desc.c_str()); return 2; }
+            parsed.push_back(std::move(*p));
+        }
+        const int NT = (int)mts.size();
+        // work list: (ordered template selection, outpoint permutation)
+        struct Job { std::vector<int> sel; std::vector<int> perm; };
+        std::vector<Job> jobs;
+        for (int n = 2; n <= (big ? 4 : 3); n++) {
+            const int lim = (n == 4) ? 6 : NT;       // 4 inputs: over the first six templates
+            std::vector<int> idx(n, 0);
+            std::function<void(int)> rec = [&](int pos) {
+                if (pos == n) {
+                    std::vector<int> perm(n); for (int i = 0; i < n; i++) perm[i] = i;
+                    do { jobs.push_back({idx, perm}); } while (std::next_permutation(perm.begin(), perm.end()));
+                    return;
+                }
+                for (int t = 0; t < lim; t++) { bool used = false; for (int q = 0; q < pos; q++) used |= idx[q] == t; if (used) continue; idx[pos] = t; rec(pos + 1); }
+            };
+            rec(0);
+        }
+        std::atomic<uint64_t> a_multi{0}, a_complete{0}, a_verified{0};
+        vx::par_for(jobs.size(), 16, [&](uint64_t lo, uint64_t hi, unsigned) {
+            for (uint64_t j = lo; j < hi; j++) {
+                if (vx::deadline_reached()) { cut = true; return; }
+                const Job& job = jobs[j];
+                const int n = (int)job.sel.size();
+                for (int avail = 0; avail < 8; avail++) {          // subsets of {A,B,C}
+                    if (!big && (avail & 4) == 0) continue;         // quick templates do not use C: keep it present
+                    const bool hasA = avail & 1, hasB = avail & 2, hasC = avail & 4;
+                    FlatSigningProvider prov;
+                    for (int i = 0; i < n; i++) { FlatSigningProvider c = parsed[job.sel[i]].pubprov; prov.Merge(std::move(c)); }
+                    if (hasA) prov.keys[K.pub[0].GetID()] = K.priv[0];
+                    if (hasB) prov.keys[K.pub[1].GetID()] = K.priv[1];
+                    if (hasC) prov.keys[K.pub[2].GetID()] = K.priv[2];
+                    CMutableTransaction tx;
+                    tx.version = 2; tx.nLockTime = 0;
+                    tx.vin.resize(n); tx.vout.resize(1);
+                    tx.vout[0].nValue = 1000; tx.vout[0].scriptPubKey = CScript() << OP_1;
+                    std::map<COutPoint, Coin> coins;
+                    std::vector<CTxOut> spent(n);
+                    std::string what;
+                    bool all_sat = true;
+                    for (int i = 0; i < n; i++) {
+                        // outpoint number perm[i] goes to input i: hashes ascend with the number, so input order != outpoint order for non-identity perms
+                        tx.vin[i].prevout = COutPoint(Txid::FromUint256(uint256{(uint8_t)(0x10 + job.perm[i])}), (uint32_t)(3 - job.perm[i]));
+                        tx.vin[i].nSequence = 0xfffffffd;
+                        spent[i] = CTxOut(AMOUNT + 1111 * (job.sel[i] + 1), parsed[job.sel[i]].spk);
+                        coins.emplace(tx.vin[i].prevout, Coin(spent[i], 1, false));
+                        all_sat = all_sat && mts[job.sel[i]].sat(hasA, hasB, hasC);
+                        what += (i ? " + " : "") + mts[job.sel[i]].desc + "@outpoint" + std::to_string(job.perm[i]);
+                    }
+                    what += std::string(" | keys A=") + (hasA ? "1" : "0") + " B=" + (hasB ? "1" : "0") + " C=" + (hasC ? "1" : "0");
+                    std::map<int, bilingual_str> errors;
+                    bool complete = false;
+                    try {
+                        complete = SignTransaction(tx, &prov, coins, SignOptions{}, errors);
+                    } catch (const std::exception& e) {
+                        vx::violation("signer-exception|multi|" + what, std::string("exception escaped SignTransaction: ") + e.what() + " | " + what, what);
+                        continue;
+                    }
+                    a_multi++;
+                    // independent verification of every input, spent outputs in INPUT order
+                    PrecomputedTransactionData txdata2;
+                    txdata2.Init(tx, std::vector<CTxOut>(spent), true);
+                    bool all_verify = true;
+                    for (int i = 0; i < n; i++) {
+                        MutableTransactionSignatureChecker checker(&tx, i, spent[i].nValue, txdata2, MissingDataBehavior::FAIL);
+                        ScriptError err;
+                        const bool ok = VerifyScript(tx.vin[i].scriptSig, spent[i].scriptPubKey, &tx.vin[i].scriptWitness, STANDARD_SCRIPT_VERIFY_FLAGS, checker, &err);
+                        all_verify = all_verify && ok;
+                        if (ok) a_verified++;
+                        const bool reported_signed = !errors.count(i);
+                        if (reported_signed && !ok)
+                            vx::violation("complete-but-invalid|multi|" + std::to_string(n) + "|" + mts[job.sel[i]].desc, "SignTransaction reports input " + std::to_string(i) + " signed but it fails VerifyScript(STANDARD) (" + ScriptErrorString(err) + "): " + what, what);
+                        if (reported_signed && !mts[job.sel[i]].sat(hasA, hasB, hasC))
+                            vx::violation("fake-satisfaction|multi|" + mts[job.sel[i]].desc, "SignTransaction reports input " + std::to_string(i) + " signed without the needed keys: " + what, what);
+                    }
+                    if (complete) a_complete++;
+                    if (complete && !all_verify) vx::violation("complete-but-invalid|multi-tx|" + std::to_string(n), "SignTransaction returned complete but not every input verifies: " + what, what);
+                    if (complete && !all_sat) vx::violation("fake-satisfaction|multi-tx", "SignTransaction returned complete without the needed keys: " + what, what);
+                    if (!complete && all_sat) vx::violation("incomplete-but-satisfiable|multi-tx|" + std::to_string(n), "all keys available but SignTransaction does not complete: " + what, what);
+                }
+            }
+        });
+        n_multi = a_multi.load(); n_multi_complete = a_complete.load(); n_multi_inputs_verified = a_verified.load();
+        n_runs += n_multi; n_complete += n_multi_complete;
+        if (cut) E.exhaustive = false;
+        E.set("multi_input_transactions", n_multi);
+        E.set("multi_input_transactions_complete", n_multi_complete);
+        E.set("multi_input_inputs_verified", n_multi_inputs_verified);
+        if (E.exhaustive && (n_multi_complete < 100 || n_multi_complete == n_multi)) { printf("HARNESS-ERROR property=C46 vacuous multi-input family\n"); vx::finish(); return 2; }
+    }
+
     E.evaluations = n_runs.load();
     E.distinct_nontrivial = nontrivial.size();
     E.set("expressions_generated", (uint64_t)exprs.size());
@@ -519,7 +638,7 @@ int main(int argc, char** argv)
              "a s c d v j n t l u on atoms; binary combinators over all wrapped atoms; andor/thresh over singly-wrapped atoms; one wrapper on top") + (big ? "; depth 2 = binary combinators of a depth-1 expression with a singly-wrapped atom, both orders" : "") +
              "), key-symmetry reduced (first-use order A,B,C); kept iff the tree's descriptor parser accepts wsh(X) resp. tr(K,X) (sane + satisfiable); for each: every state in {absent,present,wrong}^(keys,hashes) (thorough: {absent,present} for the wrapped depth-1 and the depth-2 sets) x every "
              "(nSequence,nLockTime) in {unset, n-1, n} per timelock leaf; real ProduceSignature, then independent VerifyScript(STANDARD) of the finished tx; reference = boolean evaluation of the expression; templates: "
-             "pk/pkh/wpkh/sh-wpkh/multi k-of-n (n<=4) in bare/sh/wsh/sh-wsh/tr multi_a, tr key path, tr 2 leaves x every key subset via SignTransaction and ProduceSignature; distinct_nontrivial = descriptors completed at least once";
+             "pk/pkh/wpkh/sh-wpkh/multi k-of-n (n<=4) in bare/sh/wsh/sh-wsh/tr multi_a, tr key path, tr 2 leaves x every key subset via SignTransaction and ProduceSignature; multi-input: every ordered selection of 2..3 (thorough ..4) templates from {pkh,wpkh,sh(wpkh),wsh(multi),tr key path,tr script path (+4 in thorough)} with different amounts x every permutation of the outpoints over the inputs x key subsets through SignTransaction, each input verified with PrecomputedTransactionData rebuilt in input order; distinct_nontrivial = descriptors completed at least once";
     E.assume("the tree's miniscript parser/type system is used as generator filter only (which expressions are in scope), never as the oracle");
     E.assume("clause (3) reference-satisfiable => complete is checked only when no key/preimage is in the 'wrong' state (a wrong resource may legitimately be preferred by the satisfier and then fail the final check)");
     if (E.exhaustive && (n_sane.load() < 200 || n_complete.load() < 1000 || n_unsat_checked.load() < 1000 || n_tmpl_complete < 50)) {
